@@ -477,5 +477,5 @@ def suites(tier):
     return [
         Suite("bmci", check_bmci,
               strategy=bmci_cases(600 if tier == "quick" else 5000),
-              examples={"quick": 500, "thorough": 5000}),
+              examples={"quick": 800, "thorough": 5000}),
     ]
